@@ -174,6 +174,28 @@ pub fn api_variants<E: Entry>(g: &mut Gen, st: &mut Stats) -> CaseResult {
         let c: E::Val<'_> = d.decode_with(&mut ctx).map_err(|e| vcore::Fail::new("decode-failed", format!("Decoder::decode_with({}): {}", short_hex(&bytes), e)))?;
         ensure!(E::same(&v, &a) && E::same(&v, &b) && E::same(&v, &c), "decode-variants-differ", "{:?} encoded as {}: decode / decode_with / Decoder::decode_with do not all return it", v, short_hex(&bytes));
         ensure!(d.position() == bytes.len() && d.input().len() == bytes.len(), "position", "Decoder::decode_with consumed {} of {}", d.position(), bytes.len());
+        // the same value behind the transparent wrappers: &T, &&T, &mut T, Box<T> encode (and measure) like T; Box<T> and
+        // Option<T> decode like T (Option only where the encoding cannot be mistaken for an absent value)
+        {
+            let mut w = E::view(&seed);
+            let r1 = minicbor::to_vec(&&v).ok(); let r2 = minicbor::to_vec(&&&v).ok(); let r3 = minicbor::to_vec(&mut w).ok();
+            ensure!(r1.as_deref() == Some(&bytes[..]) && r2.as_deref() == Some(&bytes[..]) && r3.as_deref() == Some(&bytes[..]), "wrapper-encoding-differs", "{:?} encodes as {} but differently behind &T / &&T / &mut T", v, short_hex(&bytes));
+            ensure!(minicbor::len(&&v) == bytes.len() && minicbor::len(&mut w) == bytes.len(), "wrapper-len-differs", "len of {:?} behind a reference differs from {}", v, bytes.len());
+            let bx = Box::new(w);
+            let rb = minicbor::to_vec(&bx).ok();
+            ensure!(rb.as_deref() == Some(&bytes[..]) && minicbor::len(&bx) == bytes.len(), "wrapper-encoding-differs", "Box<{}> of {:?} encodes as {:?}, the value itself as {}", E::NAME, bx, rb.map(|b| short_hex(&b)), short_hex(&bytes));
+            let db: Box<E::Val<'_>> = minicbor::decode(&bytes).map_err(|e| vcore::Fail::new("decode-failed", format!("decode::<Box<{}>>({}): {}", E::NAME, short_hex(&bytes), e)))?;
+            ensure!(E::same(&v, &db), "wrapper-decoding-differs", "decode::<Box<{}>>({}) = {:?}, expected {:?}", E::NAME, short_hex(&bytes), db, v);
+            let some = minicbor::to_vec(&Some(&v)).ok();
+            ensure!(some.as_deref() == Some(&bytes[..]), "wrapper-encoding-differs", "Some({:?}) encodes differently from the value", v);
+            if bytes[0] != 0xf6 && !crate::registry::head_only::<E>() {
+                let mut d = Decoder::new(&bytes);
+                let o: Option<E::Val<'_>> = d.decode().map_err(|e| vcore::Fail::new("decode-failed", format!("decode::<Option<{}>>({}): {}", E::NAME, short_hex(&bytes), e)))?;
+                match o { Some(x) => ensure!(E::same(&v, &x) && d.position() == bytes.len(), "wrapper-decoding-differs", "decode::<Option<{}>>({}) = Some({:?})", E::NAME, short_hex(&bytes), x), None => fail!("wrapper-decoding-differs", "decode::<Option<{}>>({}) = None for the present value {:?}", E::NAME, short_hex(&bytes), v) }
+            }
+            let none: Option<E::Val<'_>> = minicbor::decode(&[0xf6]).map_err(|e| vcore::Fail::new("decode-failed", format!("decode::<Option<{}>>(f6): {}", E::NAME, e)))?;
+            ensure!(none.is_none() || bytes == [0xf6], "wrapper-decoding-differs", "decode::<Option<{}>>(null) = {:?}", E::NAME, none);
+        }
         if bytes.len() >= 2 { st.nontrivial(crate::registry::stable_hash::<E>(&bytes)) }
         Ok(())
     })
@@ -195,7 +217,7 @@ pub fn subs() -> Vec<Sub> {
         Sub { prop: "C01", name: "types",
               rule: "tape-generated value of a registry type (uniform over ~120 instantiations, boundary-dense leaves) -> to_vec -> decode with 0-3 junk bytes appended; non-trivial = encoding >= 2 bytes; distinct by (type, bytes)",
               kind: Kind::Random { quick: 1_200_000, thorough: 12_000_000, tape: 1024, f: random_types } },
-        Sub { prop: "C01", name: "api-variants", rule: "registry values through to_vec / to_vec_with / encode / encode_with / Encoder::encode / Encoder::encode_with (same bytes), len / len_with, decode / decode_with / Decoder::decode_with (same value, exact consumption)",
+        Sub { prop: "C01", name: "api-variants", rule: "registry values through to_vec / to_vec_with / encode / encode_with / Encoder::encode / Encoder::encode_with (same bytes), len / len_with, decode / decode_with / Decoder::decode_with (same value, exact consumption); the value behind &T / &&T / &mut T / Box<T> / Some(T) encodes and measures like T, Box<T> and Option<T> decode like T",
               kind: Kind::Random { quick: 300_000, thorough: 3_000_000, tape: 1024, f: variants } },
         Sub { prop: "C01", name: "large", rule: "collections, strings and byte strings of 65535 / 65536 / 65537 / 70000 / 131072 elements (Vec, VecDeque with a wrapped buffer, LinkedList, BTreeMap, BTreeSet, HashSet, String, ByteVec): round trip with junk appended, exact consumption",
               kind: Kind::Random { quick: 400, thorough: 4_000, tape: 64, f: large } },
